@@ -71,7 +71,7 @@ def fails_new(exe, work, engine, ops):
     return bool(sl.new_fails(sl.judge_srv(sl.Case("srv", line))))
 
 
-def run(res):
+def run_store(res):
     quick = res.tier == "quick"
     st, shapes = sl.translator_status()
     res.cov["translator"] = {"files": st, "shapes": {k: v for k, v in shapes.items() if k.startswith(("srvstorage/", "binding/"))}}
@@ -188,6 +188,18 @@ def decide(res, pr, bad, new, cases, exe, work, st):
         res.violation(dict(kind="obligation", broken=what, translator=st,
                            smallest_disagreeing_case=first.line if first else None,
                            model_outputs=sl.model_outputs_text(first, "C09r") if first else None), False, "; ".join(what))
+
+
+def run(res):
+    # 1. the metadata store (srvstorage), with kills between any two writes
+    run_store(res)
+    if res.violations or os.environ.get("VERIF_DEV_SKIP_BROKER"):
+        return
+    # 2. broker level: sessions that restart the broker (graceful stop, boot on the same storage) and look at what
+    #    came back, compared step by step with the model's `restart` and judged by the restart monitor
+    import brokercheck, monitors
+    brokercheck.run(res, "C09", "Props/C09_broker.v", monitors.monitor_c09, focus="restart", racy=False,
+                    nontrivial=lambda se: any(st["op"] == "RESTART" for st in se["steps"]))
 
 
 def replay(path):
